@@ -1,6 +1,9 @@
 package simrt
 
 import (
+	"os"
+	"path/filepath"
+	"runtime"
 	"time"
 )
 
@@ -73,12 +76,22 @@ func Sleep(d time.Duration) {
 		time.Sleep(d)
 		return
 	}
+	if traceSleeps {
+		_, file, line, _ := runtime.Caller(1)
+		gn := ""
+		if g != nil {
+			gn = g.Name
+		}
+		w.trace("sleep %v by %s at %s:%d", d, gn, filepath.Base(file), line)
+	}
 	t := time.NewTimer(d)
 	id := w.track(&tracked{node: nodeOf(g), timer: t})
 	<-t.C
 	w.untrack(id)
 	enterG(g)
 }
+
+var traceSleeps = os.Getenv("VERIF_TRACE_SLEEP") != ""
 
 func After(d time.Duration) <-chan time.Time {
 	g := enter()
